@@ -18,8 +18,9 @@ ASSUMPTIONS = [
 ]
 
 EPS_OF = {"float32": 2.0 ** -23, "float64": 2.0 ** -52}
-TS = [0.0, 1e-12, 1e-6, 0.1, 1.0]
-VS = [0.0, 1e-12, 1e-3, 0.2]
+# (1e-30 x 1e-31 and 1e-300 x 1e-200: both arguments non-zero, their product v*sqrt(t) underflows to 0 in float32 / float64)
+TS = [0.0, 1e-300, 1e-30, 1e-12, 1e-6, 0.1, 1.0]
+VS = [0.0, 1e-200, 1e-31, 1e-12, 1e-3, 0.2]
 SS = [0.0, 1e-9, -1e-9, 0.01, -0.01, 0.3, -0.3, 3.0, -3.0]
 DMS = [0.0, 1e-9, 0.05, 0.5, 4.0]
 KS = [1.0, 0.5, 2.0]
@@ -50,6 +51,8 @@ def check_grid(case, ctx):
     t, v, K = case["t"], case["v"], case["K"]
     w = v * math.sqrt(t)
     exact = w == 0.0
+    # region of known finding K3: v*sqrt(t) is zero or so small that its cube underflows in the dtype
+    k3_region = bool((torch.tensor(v, dtype=dt) * torch.tensor(t, dtype=dt).sqrt()).pow(3).item() == 0.0)
     rel = 1e-12 if case["dtype"] == "float64" else 1e-6
     pts = [(s, s + dm) for s in SS for dm in DMS]
     s_t = torch.tensor([p[0] for p in pts], dtype=dt)
@@ -76,7 +79,7 @@ def check_grid(case, ctx):
         for i, x in enumerate(vals):
             if x != x:
                 ctx.fail("C18/nan", f"{name} is NaN at log-moneyness {s_l[i]!r}, max {m_l[i]!r}, t={t!r}, v={v!r}, strike {K}",
-                         fn=name, t=t, v=v, s=s_l[i], m=m_l[i], exact_boundary=exact)
+                         fn=name, t=t, v=v, s=s_l[i], m=m_l[i], exact_boundary=exact, k3_region=k3_region)
                 return None
         return vals
 
@@ -185,7 +188,7 @@ def check_grid(case, ctx):
 
 def known_k3(case, v):
     d = v.get("detail") or {}
-    return v["label"] == "C18/nan" and d.get("fn") in ("bs_lookback_delta", "BSLookbackOption.delta") and bool(d.get("exact_boundary"))
+    return v["label"] == "C18/nan" and d.get("fn") in ("bs_lookback_delta", "BSLookbackOption.delta") and bool(d.get("k3_region"))
 
 
 def known_k3_hedger(case, v):
